@@ -297,8 +297,44 @@ func (fc *fileController) acquireReader(ctx context.Context, key uint16) (*contr
 	if ok {
 		return fc.acquireReader(ctx, key)
 	}
+
+	// gcWriters only closes idle handles of oversize files. Idle writer handles of files
+	// that still have room hold descriptors too: a reader must not wait behind them.
+	ok, err = fc.gcIdleWriters()
+	if err != nil {
+		return nil, err
+	}
+	if ok {
+		return fc.acquireReader(ctx, key)
+	}
 	<-fc.release
 	return fc.acquireReader(ctx, key)
+}
+
+// gcIdleWriters closes every idle writer handle regardless of the size of its file. Files
+// that are not oversize go back to the unopened set.
+func (fc *fileController) gcIdleWriters() (bool, error) {
+	fc.writers.Lock()
+	defer fc.writers.Unlock()
+	collected := false
+	for k, w := range fc.writers.open {
+		s, err := fc.FS.Stat(fileKeyToName(k))
+		if err != nil {
+			return collected, err
+		}
+		if !w.tryAcquire() {
+			continue
+		}
+		if err = w.HardClose(); err != nil {
+			return collected, err
+		}
+		delete(fc.writers.open, k)
+		if s.Size() < int64(fc.FileSize) {
+			fc.writers.unopened.Add(k)
+		}
+		collected = true
+	}
+	return collected, nil
 }
 
 func (fc *fileController) newReader(ctx context.Context, key uint16) (*controlledReader, error) {
